@@ -84,6 +84,8 @@ Contract(c, st) ==
     [] op = "nonproc" -> ErrR(st)               \* application of a non-procedure
     [] op = "car" -> IF o = "L" /\ n > 0 THEN ValR(IntV(q[1]), st) ELSE ErrR(st)      \* car/cdr of a non-pair
     [] op = "arith" -> ErrR(st)                 \* arithmetic on a non-number
+    [] op = "cyc" ->                            \* equal? / member / assoc on circular data must terminate (R7RS 6.1): isomorphic => found
+         IF c[3] \in {0, 1, 2} THEN ValR(IntV(1), st) ELSE IF c[3] = 3 THEN ValR(IntV(0), st) ELSE ValR(IntV(2), st)
     [] OTHER -> AnyR(st)
 
 InitState == [V |-> <<10, 20, 30>>, S |-> <<97, 955, 99>>, B |-> <<1, 2, 3>>, L |-> <<7, 8, 9>>]
@@ -109,6 +111,7 @@ AllCalls ==
   \cup {<<"nonproc", o>> : o \in Objs}
   \cup {<<"car", o>> : o \in Objs}
   \cup {<<"arith", o>> : o \in {"V", "S", "L", "C"}}
+  \cup {<<"cyc", o, k>> : o \in {"carcyc", "cdrcyc", "veccyc", "mixcyc"}, k \in 0..4}
 
 \* used by the check to obtain the enumerated case space together with the outcome class of each call
 DumpConstraint == Len(sst.V) > 3   \* false in every state: only the initial state is generated when dumping
